@@ -186,6 +186,10 @@ func genB(rng *sim.Rng) *Scenario {
 	sc := &Scenario{}
 	nch := rng.Range(2, 3)
 	nt := rng.Range(2, 4)
+	fanMode := rng.Intn(3) != 0
+	if fanMode && nt < 3 {
+		nt = rng.Range(3, 4)
+	}
 	for i := 0; i < nch; i++ {
 		sc.Chans = append(sc.Chans, ChanSpec{Cap: rng.Range(1, 3), Elem: []int{8, 8, 4, 16, 24, 0}[rng.Intn(6)]})
 		sc.Perm = append(sc.Perm, i)
@@ -202,6 +206,14 @@ func genB(rng *sim.Rng) *Scenario {
 	for i := range owner {
 		owner[i] = rng.Intn(nt)
 	}
+	// a fan: every other task starts by receiving from one channel, whose owner
+	// closes it early (after a few operations that cannot block and perhaps one
+	// send), so that several receivers sleep on it when values are handed over
+	// and when it is closed: the wake-ups must reach all of them, not one
+	fan := -1
+	if fanMode {
+		fan = rng.Intn(nch)
+	}
 	val := 0
 	sc.Tasks = make([][]Op, nt)
 	for t := 0; t < nt; t++ {
@@ -209,6 +221,9 @@ func genB(rng *sim.Rng) *Scenario {
 		for i := 0; i < n; i++ {
 			c := rng.Intn(nch)
 			switch r := rng.Intn(10); {
+			case c == fan && owner[c] == t:
+				// closed early: no sends later
+				sc.Tasks[t] = append(sc.Tasks[t], Op{K: []string{"len", "cap"}[rng.Intn(2)], Ch: c})
 			case r < 2 && owner[c] == t && c == plain:
 				val++
 				sc.Tasks[t] = append(sc.Tasks[t], Op{K: "send", Ch: c, Val: val})
@@ -230,7 +245,7 @@ func genB(rng *sim.Rng) *Scenario {
 						cc = 0
 					}
 					cs := Case{Ch: cc}
-					if owner[cc] == t && rng.Bool() {
+					if owner[cc] == t && cc != fan && rng.Bool() {
 						val++
 						cs.Send, cs.Val = true, val
 					}
@@ -245,8 +260,26 @@ func genB(rng *sim.Rng) *Scenario {
 			}
 		}
 	}
+	if fan >= 0 {
+		var pre []Op
+		for k, m := 0, rng.Range(1, 3); k < m; k++ {
+			pre = append(pre, Op{K: []string{"len", "cap"}[rng.Intn(2)], Ch: rng.Intn(nch)})
+		}
+		if rng.Bool() {
+			val++
+			pre = append(pre, Op{K: "send", Ch: fan, Val: val})
+		}
+		pre = append(pre, Op{K: "close", Ch: fan})
+		for t := 0; t < nt; t++ {
+			if t == owner[fan] {
+				sc.Tasks[t] = append(pre, sc.Tasks[t]...)
+			} else {
+				sc.Tasks[t] = append([]Op{{K: "recv", Ch: fan}}, sc.Tasks[t]...)
+			}
+		}
+	}
 	for c := 0; c < nch; c++ {
-		if rng.Intn(10) < 9 {
+		if c != fan && rng.Intn(10) < 9 {
 			sc.Tasks[owner[c]] = append(sc.Tasks[owner[c]], Op{K: "close", Ch: c})
 		}
 	}
@@ -262,6 +295,29 @@ func genB(rng *sim.Rng) *Scenario {
 		}
 	}
 	return sc
+}
+
+// fanWidth is the number of tasks that begin by receiving from a channel another task closes early.
+func fanWidth(sc *Scenario) int {
+	best := 0
+	for c := range sc.Chans {
+		early := false
+		for _, ops := range sc.Tasks {
+			for i := 0; i < len(ops) && i < 5; i++ {
+				early = early || ops[i].K == "close" && ops[i].Ch == c
+			}
+		}
+		n := 0
+		for _, ops := range sc.Tasks {
+			if len(ops) > 0 && ops[0].K == "recv" && ops[0].Ch == c {
+				n++
+			}
+		}
+		if early && n > best {
+			best = n
+		}
+	}
+	return best
 }
 
 func genProgram(sc *Scenario) string {
@@ -486,12 +542,13 @@ func (prop) ExtraPhase(tier string, seed uint64, deadline time.Time) (*driver.Ex
 		return nil, nil
 	}
 	er := &driver.ExtraResult{Name: "layer_b", Coverage: map[string]any{}}
-	nprog, nsched := 4, 150
+	nprog, nsched := 8, 100
 	if tier == "thorough" {
 		nprog, nsched = 60, 1500
 	}
 	hashes := map[string]bool{}
 	ends := map[string]int{}
+	fans := map[string]int{}
 	runs := 0
 	var sample any
 	for pi := 0; pi < nprog && time.Now().Before(deadline); pi++ {
@@ -503,6 +560,7 @@ func (prop) ExtraPhase(tier string, seed uint64, deadline time.Time) (*driver.Ex
 			sc = genB(ch.Rng())
 		}
 		src := genProgram(sc)
+		fans[fmt.Sprintf("%d-receivers", fanWidth(sc))]++
 		dir := filepath.Join(bTmp, fmt.Sprintf("prog-%d", pi))
 		bin, err := buildProgram(dir, src)
 		if err != nil {
@@ -544,6 +602,7 @@ func (prop) ExtraPhase(tier string, seed uint64, deadline time.Time) (*driver.Ex
 	er.Coverage["schedules_run"] = runs
 	er.Coverage["distinct_printed_histories"] = len(hashes)
 	er.Coverage["run_endings"] = ends
+	er.Coverage["programs_by_receiver_fan_on_an_early_closed_channel"] = fans
 	er.Coverage["sample"] = sample
 	er.Coverage["components"] = "real: llgo compiler lowering of chan/select/go, llgo-compiled runtime; stub: pthread mutex/cond/once/sem and thread scheduling (toolchain/libdetsched.c), LLVM 14, bdwgc with collection disabled"
 	return er, nil
